@@ -16,7 +16,75 @@ class Analysis:
         for name in frontend.CONTAINERS:
             cm = self.prog.classes[name]
             self.roles[name] = model.Roles(cm)
+            self.roles[name].inert = set()
             self.evals[name] = symex.Evaluator(self.prog, cm)
+        for name in frontend.CONTAINERS:
+            self.roles[name].inert = self.compute_inert(self.prog.classes[name], self.roles[name])
+
+    def compute_inert(self, cm, roles):
+        """data members outside the container model whose value never reaches a decision, a result, another member or an
+        output: bookkeeping (statistics counters).  Writes to them are not container state for the behavioural rules;
+        the lock rules still see every access."""
+        import lift
+        import ops
+        r = roles
+        known = set(filter(None, [r.slots, r.index, r.order, getattr(r, 'perm', None), r.counter, r.part, 'm_lock']))
+        known |= set(r.aux_kind) | set(getattr(r, 'config', None) or []) | set(getattr(r, 'rng', None) or [])
+        cands = set(f.name for f in cm.fields if f.name not in known)
+        rknown = set(r.backptrs) | set(filter(None, [r.value, getattr(r, 'deadline', None), getattr(r, 'stamp', None)]))
+        rcands = set(f.name for rec in cm.records.values() for f in rec.fields if f.name not in rknown)
+        if not cands and not rcands:
+            return set()
+
+        def mentions(t, out=None):
+            out = set() if out is None else out
+            if isinstance(t, tuple):
+                if len(t) == 3 and t[0] == 'fld' and t[1] == ('this',) and t[2] in cands:
+                    out.add(t[2])
+                elif len(t) == 3 and t[0] == 'fld' and t[1] != ('this',) and t[2] in rcands:
+                    out.add('.' + t[2])
+                for x in t:
+                    if isinstance(x, tuple):
+                        mentions(x, out)
+            return out
+
+        def own(loc):
+            if isinstance(loc, tuple) and len(loc) == 3 and loc[0] == 'fld' and loc[1] != ('this',) and loc[2] in rcands:
+                return '.' + loc[2]
+            rt = symex.root_of(loc)
+            return rt[1] if rt[0] == 'field' and rt[1] in cands else None
+
+        bad = set()
+        for m in self.entry_points(cm):
+            accessor = ops.kind_of(m) == 'UNKNOWN'
+            for p in self.paths(cm, m):
+                for e, _ in flat_events(p):
+                    k = e[0]
+                    if k in ('wr', 'atomic', 'call'):
+                        o = own(e[1])
+                        used = set()
+                        for x in e[2:5] if k != 'wr' else e[2:3]:
+                            if isinstance(x, tuple):
+                                used |= mentions(x)
+                        if o is None:
+                            used |= mentions(e[1])
+                        elif o.startswith('.'):
+                            used |= mentions(e[1][1])
+                        bad |= used - ({o} if o else set())
+                        if k == 'atomic' and o and e[6] == 'R' and not accessor:
+                            bad.add(o)          # a value loaded from the atomic: where it flows is not tracked
+                    elif k in ('cond', 'use', 'rng', 'swap', 'lwr'):
+                        if k == 'lwr':
+                            continue
+                        for x in e[1:]:
+                            if isinstance(x, tuple):
+                                bad |= mentions(x)
+                    elif k == 'ret':
+                        if not accessor and isinstance(e[1], tuple):
+                            bad |= mentions(e[1])
+                if p.ret is not None and not accessor and isinstance(p.ret, tuple):
+                    bad |= mentions(p.ret)
+        return (cands | set('.' + x for x in rcands)) - bad
 
     def classes(self, names=None):
         for name in (names or frontend.CONTAINERS):
